@@ -16,7 +16,7 @@ RULE = (
 )
 PROBES = [">=3-blocks", "mask-touches-first-channel", "mask-touches-last-channel", "empty-final-mask", "history>=3",
           "range-exactly-on-channel-centre", "range-end-on-a-centre-not-exact-in-float32", "method:mad", "method:iqrm", "all-equal-vector", "file-roundtrip", "clean:two-gulps",
-          "clean:default-mask-value", "fault-raised", "sub-byte"]
+          "clean:default-mask-value", "fault-raised", "sub-byte", "clean:non-finite-samples"]
 COMPONENTS = {
     "real": ["sigpyproc.core.rfi.RFIMask (apply_mask/apply_method/apply_funcn/to_file/from_file)", "double_mad_mask / iqrm_mask",
              "Filterbank.clean_rfi / compute_stats / apply_channel_mask + mask_channels kernel", "h5py (outside the fault seam)"],
